@@ -868,6 +868,11 @@ type localConn struct {
 	closed  chan struct{}
 	once    sync.Once
 	onClose func()
+	// parkClose: Close() does not return (lingering socket / close handshake) until letClose is signalled; the connection
+	// counts as OPEN until then
+	parkClose atomic.Bool
+	closing   chan struct{}
+	letClose  chan struct{}
 }
 
 func (l *localConn) Read(p []byte) (int, error) {
@@ -877,6 +882,10 @@ func (l *localConn) Read(p []byte) (int, error) {
 func (l *localConn) Write(p []byte) (int, error) { return len(p), nil }
 func (l *localConn) Close() error {
 	l.once.Do(func() {
+		if l.parkClose.Load() {
+			l.closing <- struct{}{}
+			<-l.letClose
+		}
 		close(l.closed)
 		if l.onClose != nil {
 			l.onClose()
@@ -1032,7 +1041,9 @@ func runMapSeq(c caseIn) *caseOut {
 	var conns []*localConn
 	state := []int{} // per arrival: 1 live, 2 refused, 3 closed (also: closed by the peer before it was started)
 	peerOf := map[int]net.Conn{}
-	live := 0
+	tunnelOf := map[int]string{}
+	knownTunnel := map[string]bool{}
+	live := 0 // OPEN connections: running tunnels, including one whose Close() is parked
 	for _, op := range c.Ops {
 		res := 0
 		if op[0] == 0 || op[0] == 3 {
@@ -1053,6 +1064,38 @@ func runMapSeq(c caseIn) *caseOut {
 				fc.mu.Lock()
 				peerOf[len(conns)-1] = fc.peers[len(fc.peers)-1]
 				fc.mu.Unlock()
+				for _, t := range tm.ListTunnels() { // remember which tunnel carries this arrival
+					if !knownTunnel[t.GetID()] {
+						knownTunnel[t.GetID()] = true
+						tunnelOf[len(conns)-1] = t.GetID()
+					}
+				}
+			}
+		} else if op[0] == 4 {
+			// the tunnel of arrival k is closed from OUTSIDE the copy loop (peer-closed notification) and the local socket's
+			// Close() does not return yet: the connection is still open and must keep its slot
+			k := op[1]
+			if k < len(conns) && state[k] == 1 {
+				lc := conns[k]
+				lc.closing, lc.letClose = make(chan struct{}, 1), make(chan struct{}, 1)
+				lc.parkClose.Store(true)
+				go tm.OnTunnelClosed(tunnelOf[k], "m1", "peer_closed", 0, 0, 0)
+				select {
+				case <-lc.closing:
+					state[k] = 5
+					res = 5
+				case <-time.After(5 * time.Second):
+					out.fail("harness", fmt.Sprintf("closing the tunnel of arrival %d never reached localConn.Close()", k))
+				}
+			}
+		} else if op[0] == 5 {
+			k := op[1]
+			if k < len(conns) && state[k] == 5 {
+				conns[k].letClose <- struct{}{}
+				peerOf[k].Close()
+				state[k] = 3
+				live--
+				res = 3
 			}
 		} else if op[0] == 2 {
 			// the peer's "tunnel closed" notification for this connection's tunnel arrives right after RegisterTunnel,
@@ -1088,7 +1131,13 @@ func runMapSeq(c caseIn) *caseOut {
 				res = 3
 			}
 		}
-		if !waitFor(func() bool { return tm.CountTunnels() == live }) {
+		if res == 5 {
+			// while Close() is parked the code still has the tunnel registered; a tree that unregisters first is caught by the
+			// slot predicates below, not by the harness's own bookkeeping
+			if got := h.VerifActiveConnCount(); got < live && countsHolders {
+				out.fail("mapping-slot-returned-before-connection-closed", fmt.Sprintf("activeConnCount=%d but %d connections of the mapping are still open after %v (localConn.Close() has not returned)", got, live, op))
+			}
+		} else if !waitFor(func() bool { return tm.CountTunnels() == live }) {
 			out.fail("harness", fmt.Sprintf("tunnel manager reports %d tunnels, harness expects %d", tm.CountTunnels(), live))
 		}
 		if res == 3 { // OnClosed runs after UnregisterTunnel; give the release a moment to land before sampling
@@ -1112,6 +1161,11 @@ func runMapSeq(c caseIn) *caseOut {
 		// the cap binds admissions decided against a KNOWN limit; an arrival during a quota fault is let through (and counted)
 		if c.Max > 0 && live > c.Max && res == 1 && op[0] == 0 {
 			out.fail("mapping-cap-live", fmt.Sprintf("MaxConnections=%d but %d tunnels of the mapping are live after %v", c.Max, live, op))
+		}
+	}
+	for k, lc := range conns { // let every parked Close() go
+		if state[k] == 5 {
+			lc.letClose <- struct{}{}
 		}
 	}
 	out.Final = live
@@ -1187,6 +1241,8 @@ func (s *gatedStore) gate(key string) {
 			q.class = 1
 		case strings.HasPrefix(key, constants.KeyPrefixIndexConnectionCodeByTarget):
 			q.class = 2
+		case strings.HasPrefix(key, constants.KeyPrefixRuntimeConnectionCodeByCode):
+			q.class = 3
 		}
 	} else {
 		if q.parkedWrite {
@@ -1307,6 +1363,7 @@ type quotaWorld struct {
 	newCode   func(k int) string
 	occupancy func() int
 	snapshot  func() string
+	activate  func(code string) error // ActivateConnectionCode(code) by the listen client
 	create    func() (string, error) // CreateConnectionCode for the client under test, returns the code
 	list      func()                 // the client's read-only listing (ListConnectionCodesByTargetClient path)
 	valid     func(code string) bool // ground truth from storage: the code exists and can still be activated
@@ -1377,6 +1434,11 @@ func newQuotaWorld(kind string, max, pre int, out *caseOut) *quotaWorld {
 			return "", err
 		}
 		return cc.Code, nil
+	}
+	w.activate = func(code string) error {
+		_, err := svc.ActivateConnectionCode(&services.ActivateConnectionCodeRequest{
+			Code: code, ListenClientID: listenClient, ListenAddress: "0.0.0.0:9999"})
+		return err
 	}
 	w.list = func() { _, _ = ccRepo.ListByTargetClient(targetClient) }
 	w.valid = func(code string) bool {
@@ -1586,6 +1648,112 @@ func runQuotaList(c caseIn) *caseOut {
 	return out
 }
 
+// runQuotaClaim: the target client is AT its code limit.  The activation of one of its codes (by another client, under that
+// client's `mappings` marker) is run up to the point where it has CLAIMED the code and is about to write it back as used;
+// a CreateConnectionCode of the target client arrives — the claimed code is still active (the claim can be given back), so
+// the create must be refused; the activation then finishes (one code fewer) and a further create is accepted.
+// Oracle: codes of the client that are valid for activation (ground truth per handed-out code) <= limit after every step.
+func runQuotaClaim(c caseIn) *caseOut {
+	out := newOut()
+	w := newQuotaWorld("code", c.Max, 0, out)
+	defer w.close()
+	var codes []string
+	for k := 0; k < c.Max; k++ {
+		code, err := w.create()
+		if err != nil {
+			out.fail("harness", fmt.Sprintf("pre-fill %d refused: %v", k, err))
+			return out
+		}
+		codes = append(codes, code)
+	}
+	truth := func() int {
+		n := 0
+		for _, code := range codes {
+			if w.valid(code) {
+				n++
+			}
+		}
+		return n
+	}
+	sample := func(what string) {
+		t := truth()
+		out.Counts = append(out.Counts, [2]int{t, w.occupancy()})
+		if t > out.MaxSeen {
+			out.MaxSeen = t
+		}
+		if t > c.Max {
+			out.fail("conncode-create-quota", fmt.Sprintf("per-client limit %d but %d codes of the client are valid for activation %s", c.Max, t, what))
+		}
+	}
+	q := &qcaller{parkEvery: true, arrived: make(chan struct{}), release: make(chan struct{})}
+	done := make(chan error, 1)
+	reg := make(chan struct{})
+	go func() {
+		w.gs.mu.Lock()
+		w.gs.callers[gid()] = q
+		w.gs.mu.Unlock()
+		close(reg)
+		done <- w.activate(codes[0])
+	}()
+	<-reg
+	// run the activation until it is parked before writing the code back (class 1 = by-id record, 3 = by-code record)
+	claimed, finished := false, false
+	for !claimed && !finished {
+		select {
+		case <-q.arrived:
+			if q.class == 1 || q.class == 3 {
+				claimed = true
+			} else {
+				q.release <- struct{}{}
+			}
+		case err := <-done:
+			finished = true
+			out.fail("harness", fmt.Sprintf("activation finished before it could be parked: %v", err))
+		case <-time.After(20 * time.Second):
+			finished = true
+			out.fail("harness", "activation neither parked nor returned within 20s")
+		}
+	}
+	create := func(what string) {
+		code, err := w.create()
+		switch {
+		case err == nil:
+			codes = append(codes, code)
+			out.Outcomes = append(out.Outcomes, oAdmitted)
+		case isQuotaErr(err):
+			out.Outcomes = append(out.Outcomes, oRefused)
+		default:
+			out.Outcomes = append(out.Outcomes, oError)
+			out.fail("quota-unexpected-error", fmt.Sprintf("create %s: %v", what, err))
+		}
+		sample(what)
+	}
+	sample("while an activation holds the claim of one of them")
+	create("after a create that arrived while an activation held the claim of one of the client's codes")
+	if claimed { // let the activation finish
+		for !finished {
+			select {
+			case q.release <- struct{}{}:
+			case err := <-done:
+				finished = true
+				if err != nil {
+					out.fail("quota-unexpected-error", fmt.Sprintf("activation failed: %v", err))
+				}
+			case <-q.arrived:
+				// parked again: the next loop iteration releases it
+				q.release <- struct{}{}
+			case <-time.After(20 * time.Second):
+				finished = true
+				out.fail("harness", "activation did not finish within 20s")
+			}
+		}
+	}
+	sample("after the activation finished")
+	create("after the activation finished")
+	out.Final = truth()
+	return out
+}
+
 // runQuotaFault: the client is AT its quota (pre = max).  A fault-free request must be refused by the quota; its storage
 // reads are recorded.  Then, for every read position k, a fresh world is built and the same request is made while exactly
 // the k-th read fails: it must be refused or fail — never be admitted — and must leave the stored key set unchanged.
@@ -1679,6 +1847,8 @@ func runCase(raw json.RawMessage) interface{} {
 		return runQuotaFault(c)
 	case "qlist":
 		return runQuotaList(c)
+	case "qclaim":
+		return runQuotaClaim(c)
 	}
 	o := newOut()
 	o.fail("harness", "unknown mode "+c.Mode)
